@@ -489,10 +489,32 @@ func vfMutate(t *rapid.T, doc vfMap, other vfMap, i int) (desc string) {
 
 	kind := vfPick(t, l+"kind", []string{
 		"null", "null", "null", "delete", "scalar", "scalar", "swap_container", "swap_container", "nested_null",
-		"nested_null", "empty", "inject", "inject", "extra",
+		"nested_null", "empty", "inject", "inject", "extra", "list_elem", "list_elem", "list_elem",
 	})
 
 	switch kind {
+	case "list_elem":
+		// an element of a list (clients, filters, upstreams, ignored hosts, ...)
+		// that is null or of another type than its siblings
+		var lists []vfSlot
+		for _, s := range slots {
+			if _, isList := s.get().(vfList); isList && s.m != nil {
+				lists = append(lists, s)
+			}
+		}
+		if len(lists) == 0 {
+			break
+		}
+		s := vfPick(t, l+"list", lists)
+		lst := s.get().(vfList)
+		elem := vfPick(t, l+"elem", []any{nil, nil, 7, "str", true, vfMap{}, vfList{}, vfMap{"name": nil}, 1.5})
+		if len(lst) == 0 || vfChance(t, l+"elem_append", 40) {
+			s.set(append(lst, vfClone(elem)))
+		} else {
+			lst[vfUniform(t, l+"elem_idx", len(lst))] = vfClone(elem)
+		}
+
+		return s.path + "[]:" + fmt.Sprintf("elem_%T", elem)
 	case "inject":
 		// a key of another schema's layout, at top level or inside dns
 		keys := vfSortedKeys(other)
@@ -551,7 +573,8 @@ func vfMutate(t *rapid.T, doc vfMap, other vfMap, i int) (desc string) {
 	cur := s.get()
 
 	switch kind {
-	case "null":
+	case "null", "list_elem":
+		kind = "null"
 		s.set(nil)
 	case "delete":
 		if s.m != nil {
